@@ -90,7 +90,51 @@ func corrCmp(r *rng, c *caseOut, n int) {
 
 // ---------------------------------------------------------------- primitives
 
+// bounds at the extremes of the types: always part of the prims correspondence
+var primCorpus = []string{
+	"irange -9223372036854775808 -9223372036854775808", "irange -9223372036854775808 -9223372036854775807",
+	"irange 9223372036854775807 9223372036854775807", "irange -9223372036854775808 9223372036854775807",
+	"irange -1 0", "irange 0 1", "irange -9223372036854775808 0", "irange 0 9223372036854775807",
+	"urange 18446744073709551615 18446744073709551615 true", "urange 0 18446744073709551615 true",
+	"urange 18446744073709551614 18446744073709551615 false", "urange 0 9223372036854775808 true",
+	"biased 18446744073709551615", "biased 9223372036854775808", "biased 18446744073709551614",
+}
+
+func corrPrimCorpus(r *rng, c *caseOut) {
+	for _, cmd := range primCorpus {
+		for k := 0; k < 3; k++ {
+			ws := r.words(12)
+			if k == 0 {
+				ws = []uint64{^uint64(0), ^uint64(0), ^uint64(0), ^uint64(0)}
+			}
+			s := rapid.VerifBufStream(ws, true)
+			f := strings.Fields(cmd)
+			res := safely(func() string {
+				switch f[0] {
+				case "irange":
+					lo, _ := strconv.ParseInt(f[1], 10, 64)
+					hi, _ := strconv.ParseInt(f[2], 10, 64)
+					v, l, rr := rapid.VerifGenIntRange(s, lo, hi, true)
+					return fmt.Sprintf("%d,%v,%v", v, l, rr)
+				case "urange":
+					lo, _ := strconv.ParseUint(f[1], 10, 64)
+					hi, _ := strconv.ParseUint(f[2], 10, 64)
+					u, l, rr := rapid.VerifGenUintRange(s, lo, hi, f[3] == "true")
+					return fmt.Sprintf("%d,%v,%v", u, l, rr)
+				default:
+					max, _ := strconv.ParseUint(f[1], 10, 64)
+					u, l, rr := rapid.VerifGenUintN(s, max, true)
+					return fmt.Sprintf("%d,%v,%v", u, l, rr)
+				}
+			})
+			c.tag("prim-corpus")
+			c.add("prim "+cmd+" | "+joinU64(ws), fmt.Sprintf("res=%s rest=%d %s", res, len(s.Rest()), showRec(s.Rec())))
+		}
+	}
+}
+
 func corrPrims(r *rng, c *caseOut, n int) {
+	corrPrimCorpus(r, c)
 	for i := 0; i < n; i++ {
 		ws := r.words(12)
 		if r.chance(1, 10) {
